@@ -189,8 +189,8 @@ def run_mc(c) -> CaseResult:
 
 CHECK = Check(
     id="C04",
-    parts=[Part("elementwise", run_ew, strategy=ew_cases, budget={"quick": 320, "thorough": 6000}),
-           Part("montecarlo", run_mc, strategy=mc_cases, budget={"quick": 120, "thorough": 3000})],
+    parts=[Part("elementwise", run_ew, strategy=ew_cases, budget={"quick": 800, "thorough": 40000}),
+           Part("montecarlo", run_mc, strategy=mc_cases, budget={"quick": 300, "thorough": 20000})],
     rule=("elementwise: op in {gelu, gelu-tanh, silu, silu_glu} x mult from a 65-point log grid on [1/16,16], the end points and log-uniform "
           "floats; output std and gradient RMS under N(0,1) by 2^17-point Simpson quadrature of the library's own forward value and autograd "
           "derivative (must agree with the 2^15-point rule to 1e-9); band |stat-1| <= 0.07. montecarlo: fixed-seed 2^20-element draws for "
